@@ -12,9 +12,17 @@ type Job struct {
 	Prop    string
 	Tier    string
 	Seed    uint64
+	Total   int   // total number of batches of the check (all workers)
 	Batches []int // batch numbers this worker owns (static assignment => worker count never changes what is explored)
 	Rep     *ev.Report
 	Replay  string // replay file (replay mode)
+}
+
+func (j *Job) TotalBatches() int {
+	if j.Total > 0 {
+		return j.Total
+	}
+	return len(j.Batches)
 }
 
 func (j *Job) Thorough() bool { return j.Tier == "thorough" }
@@ -25,6 +33,7 @@ type Partial struct {
 	Distinct   []uint64
 	Samples    []any
 	Counters   map[string]int
+	Sets       map[string][]uint64
 	Extra      map[string]any
 	Violations []ev.Violation
 	Known      []string
@@ -36,6 +45,12 @@ func Encode(r *ev.Report) []byte {
 		Violations: r.Violations, Known: r.Known, Notes: r.Notes}
 	for d := range r.Distinct {
 		p.Distinct = append(p.Distinct, d)
+	}
+	p.Sets = map[string][]uint64{}
+	for name, set := range r.Sets {
+		for d := range set {
+			p.Sets[name] = append(p.Sets[name], d)
+		}
 	}
 	b, err := json.Marshal(p)
 	if err != nil {
@@ -53,6 +68,11 @@ func Decode(b []byte, into *ev.Report) error {
 	o.Evals = p.Evals
 	for _, d := range p.Distinct {
 		o.Distinct[d] = struct{}{}
+	}
+	for name, ds := range p.Sets {
+		for _, d := range ds {
+			o.SetAdd(name, d)
+		}
 	}
 	o.Samples = p.Samples
 	if p.Counters != nil {
